@@ -47,7 +47,7 @@ def _model_expr(c):
     if op == "modhelm_hyp":
         return "modhelm_hyp_dense %s %s" % (common, kc)
     # ik = i*k, mik = -i*k
-    ik = "(cq_mul (0%%bigQ, 1%%bigQ) %s)" % kc
+    ik = "(cq_mul cq_i %s)" % kc
     mik = "(cq_opp %s)" % ik
     if op == "efield":
         return "efield_dense %s %s %s" % (common, mik, ik)
@@ -75,6 +75,7 @@ def case_body(c):
 
 def correspond(ctx):
     strength = "thorough" if ctx.tier == "thorough" else "quick"
+    ab.start_search(ctx, "c06_impl.py", {"mode": "search", "strength": strength, "seed": ctx.seed})
     res = ctx.run_impl("c06_impl.py", {"mode": "corr", "strength": strength, "seed": ctx.seed}, timeout=1500)
     if res is None:
         return
@@ -112,13 +113,8 @@ def correspond(ctx):
 
 
 def search(ctx, strength):
-    res = ctx.run_impl("c06_impl.py", {"mode": "search", "strength": strength, "seed": ctx.seed}, timeout=3000)
-    if res is None:
-        return
-    ctx.search_info["evaluations"] = res.get("evaluations", 0)
-    ctx.search_info["notes"].append({"worst": res.get("worst", {}), "wall_s": round(res.get("wall", 0), 1)})
-    for f in res.get("failures", []):
-        ctx.failure(f["signature"], f["what"], f["data"])
+    res = ab.finish_search(ctx, "c06_impl.py", {"mode": "search", "strength": strength, "seed": ctx.seed})
+    ab.report_search(ctx, res)
 
 
 def replay(ctx):
